@@ -2,6 +2,18 @@
 // consumers wait). Over-admission oracle: successes <= initial + posts begun (posts read after the success is counted).
 #include "fb_common.h"
 #include "fiber_semaphore.h"
+// under TSan the harness-side occupancy counters must not themselves create happens-before edges between owners
+#ifdef VP_TSAN
+#define OCC_ORDER memory_order_relaxed
+#else
+#define OCC_ORDER memory_order_seq_cst
+#endif
+static long sem_pay_a, sem_pay_b;  // plain payload, meaningful when the semaphore admits one holder at a time
+__attribute__((noinline)) static void vp_payload_sem_section(int id, int trial_) {
+  if (sem_pay_a != sem_pay_b) vp_violation("C06", "sem:payload-torn", "trial %d: fiber %d holds the only unit and sees payload %ld/%ld", trial_, id, sem_pay_a, sem_pay_b);
+  sem_pay_a++;
+  sem_pay_b++;
+}
 
 static fiber_semaphore_t sem;
 static int initial, kind, iters, trial;
@@ -10,8 +22,8 @@ static long consumer_quota, producer_quota;
 static vp_counter_t *c_wait, *c_try_ok, *c_try_fail, *c_post, *c_trials;
 
 static void admitted(fb_slot_t* s, const char* how) {
-  const long succ = atomic_fetch_add(&successes, 1) + 1;
-  const long posts = atomic_load(&posts_begun);
+  const long succ = atomic_fetch_add_explicit(&successes, 1, OCC_ORDER) + 1;
+  const long posts = atomic_load_explicit(&posts_begun, OCC_ORDER);
   if (succ > initial + posts)
     vp_violation("C06", "sem:over-admission", "trial %d: %s by fiber %d is success #%ld but initial value %d plus %ld posts begun allow only %ld",
                  trial, how, s->id, succ, initial, posts, initial + posts);
@@ -32,9 +44,9 @@ static int try_wait(fb_slot_t* s) {
 }
 
 static void do_post(fb_slot_t* s) {
-  atomic_fetch_add(&posts_begun, 1);
+  atomic_fetch_add_explicit(&posts_begun, 1, OCC_ORDER);
   FB_BLOCKING(s, "C06 fiber_semaphore_post", fiber_semaphore_post(&sem));
-  atomic_fetch_add(&posts_done, 1);
+  atomic_fetch_add_explicit(&posts_done, 1, OCC_ORDER);
   vp_add(c_post, 1);
 }
 
@@ -49,12 +61,13 @@ static void* holder_fiber(void* a) {
       admitted(s, "wait");
       vp_add(c_wait, 1);
     }
-    const long in = atomic_fetch_add(&inside, 1) + 1;
+    const long in = atomic_fetch_add_explicit(&inside, 1, OCC_ORDER) + 1;
     if (in > initial)
       vp_violation("C06", "sem:too-many-holders", "trial %d: %ld fibers hold a unit of a semaphore initialised to %d", trial, in, initial);
+    if (initial == 1) vp_payload_sem_section(s->id, trial);
     if ((vp_rand(&s->rng) & 7) == 0) fiber_yield();
     else fb_spin(&s->rng, 60);
-    atomic_fetch_sub(&inside, 1);
+    atomic_fetch_sub_explicit(&inside, 1, OCC_ORDER);
     do_post(s);
     if ((vp_rand(&s->rng) & 7) == 0) fiber_yield();
   }
@@ -68,9 +81,9 @@ static void* hammer_try_fiber(void* a) {
   long n = 0, i;
   for (i = 0; i < (long)iters * 200 && !atomic_load(&hammer_stop); ++i) {
     if (try_wait(s)) {
-      const long in = atomic_fetch_add(&inside, 1) + 1;
+      const long in = atomic_fetch_add_explicit(&inside, 1, OCC_ORDER) + 1;
       if (in > initial) vp_violation("C06", "sem:too-many-holders", "trial %d (hammer): %ld fibers hold a unit of a semaphore initialised to %d", trial, in, initial);
-      atomic_fetch_sub(&inside, 1);
+      atomic_fetch_sub_explicit(&inside, 1, OCC_ORDER);
       do_post(s);
     }
     if ((++n & 31) == 0) fiber_yield();
@@ -118,6 +131,10 @@ void* sy_sem_root(void* x) {
     kind = (int)(vp_rand(&rng) & 1);
     initial = inits[vp_rand(&rng) % 4];
     if (kind == 0 && initial == 0) initial = 1;
+    if (vp_param("mutexlike", 0) && trial % 4 != 3) {  // one unit, holder pattern: the plain payload is meaningful
+      kind = 0;
+      initial = 1;
+    }
     atomic_store(&successes, 0);
     atomic_store(&posts_begun, 0);
     atomic_store(&posts_done, 0);
